@@ -59,7 +59,10 @@ type scenario struct {
 	DrainFirst bool  `json:"drain_first"`
 	NAfter     int   `json:"n_after"`
 	Writers    int   `json:"writers"` // goroutines writing while the closers run (results not judged)
+	Cancel     int   `json:"cancel"`  // parent context: 0 never cancelled, 1 before the closers, 2 after everything, 3 racing the closers
 }
+
+var cCoq = []string{"CNone", "CBefore", "CAfter", "CRacing"}
 
 type result struct {
 	Handled      []int    `json:"handled"`
@@ -132,7 +135,16 @@ func runScenario(sc scenario) result {
 	a, b := net.Pipe()
 	h := &handler{script: sc.Script}
 	h.cond = sync.NewCond(&h.mu)
-	mc, loop := netmc.NewMinecraftConn(context.Background(), a, proto.ServerBound, 5*time.Second, 5*time.Second, -1, nil)
+	// the connection's own context is a child of this one (proxy shutdown / tunnel context in production)
+	parent, cancelParent := context.WithCancel(context.Background())
+	defer cancelParent()
+	readTimeout := 5 * time.Second
+	if sc.Cancel == 1 || sc.Cancel == 3 {
+		// after a parent cancel CloseWith and writes close nothing; a read loop that nobody wakes up
+		// only notices at its next read timeout
+		readTimeout = 1500 * time.Millisecond
+	}
+	mc, loop := netmc.NewMinecraftConn(parent, a, proto.ServerBound, readTimeout, 5*time.Second, -1, nil)
 	mc.SetProtocol(version.Minecraft_1_21_4.Protocol)
 	mc.SetActiveSessionHandler(state.Play, h)
 	loopDone := make(chan struct{})
@@ -166,9 +178,16 @@ func runScenario(sc scenario) result {
 		go func() { feed(); close(fed) }()
 	}
 
+	if sc.Cancel == 1 {
+		cancelParent() // before anything closed the connection
+	}
 	start := make(chan struct{})
 	var wg sync.WaitGroup
 	var winners atomic.Int32
+	if sc.Cancel == 3 {
+		wg.Add(1)
+		go func() { defer wg.Done(); <-start; cancelParent() }()
+	}
 	ka := func() proto.Packet { return &packet.KeepAlive{RandomID: 7} }
 	for _, k := range sc.Closers {
 		wg.Add(1)
@@ -217,6 +236,9 @@ func runScenario(sc scenario) result {
 	select {
 	case <-fed:
 	case <-time.After(4 * time.Second):
+	}
+	if sc.Cancel == 2 {
+		cancelParent()
 	}
 	for i := 0; i < sc.NAfter; i++ {
 		var err error
@@ -381,6 +403,7 @@ func randomScenario(r *lib.Rng, i int) scenario {
 	sc.DrainFirst = r.Chance(3, 4)
 	sc.NAfter = r.Pick(1, 4, 8)
 	sc.Writers = r.Pick(0, 0, 1, 3)
+	sc.Cancel = r.Pick(0, 0, 0, 1, 1, 2, 3, 3)
 	return sc
 }
 
@@ -395,7 +418,7 @@ func main() {
 	rng := lib.NewRng(f.Seed)
 	out := lib.NewOut("C44", f)
 	out.Imports = "From Verif Require Import Model.ConnClose.\n"
-	out.Rule = "scenarios on a real connection over net.Pipe in a child process: 0..12 incoming packets whose handler returns or panics (error, string, runtime.Error index/nil map, custom value; half of the packets panic), 1..32 goroutines released together that close it (Close, CloseWith, CloseUnknown, peer closes its end = read EOF, write failure on the broken pipe; every fifth scenario has 32), 0..3 goroutines writing meanwhile, 1..8 writes (WritePacket, Write, BufferPacket, BufferPayload) started afterwards; fixed scenarios for each single closer kind and each panic kind. Distinct = distinct Coq term; non-trivial = at least one panicking packet or at least two closers."
+	out.Rule = "scenarios on a real connection over net.Pipe in a child process: 0..12 incoming packets whose handler returns or panics (error, string, runtime.Error index/nil map, custom value; half of the packets panic), 1..32 goroutines released together that close it (Close, CloseWith, CloseUnknown, peer closes its end = read EOF, write failure on the broken pipe; every fifth scenario has 32), 0..3 goroutines writing meanwhile, 1..8 writes (WritePacket, Write, BufferPacket, BufferPayload) started afterwards; the parent context given to NewMinecraftConn is never cancelled / cancelled before the first close / after everything / by a goroutine racing the closers; fixed scenarios for each single closer kind and each panic kind, and for each closer kind after a parent-context cancel. Distinct = distinct Coq term; non-trivial = at least one panicking packet or at least two closers."
 
 	var scs []scenario
 	// fixed: every closer kind alone with every panic kind, and 32 of one kind
@@ -415,6 +438,17 @@ func main() {
 	scs = append(scs, scenario{Script: []int{hPanicString}, Closers: all32(kClose), DrainFirst: true, NAfter: 4},
 		scenario{Script: []int{hPanicError}, Closers: all32(kCloseWith), DrainFirst: true, NAfter: 4},
 		scenario{Script: nil, Closers: append(all32(kCloseUnknown), kPeerClose), DrainFirst: true, NAfter: 4})
+	// parent context cancelled BEFORE the first close: every way of closing, alone and from many goroutines
+	for k := kClose; k <= kWriteFail; k++ {
+		scs = append(scs, scenario{Script: []int{hReturn, hPanicString}, Closers: []int{k}, DrainFirst: true, NAfter: 4, Cancel: 1})
+	}
+	scs = append(scs,
+		scenario{Script: []int{hPanicError}, Closers: []int{kClose, kCloseUnknown, kClose, kCloseUnknown, kClose, kCloseUnknown, kClose, kCloseUnknown}, DrainFirst: true, NAfter: 4, Cancel: 1},
+		scenario{Script: nil, Closers: all32(kClose), DrainFirst: true, NAfter: 2, Cancel: 1},
+		scenario{Script: nil, Closers: append(all32(kCloseWith), kClose), DrainFirst: true, NAfter: 2, Cancel: 1},
+		scenario{Script: []int{hReturn}, Closers: all32(kClose), DrainFirst: true, NAfter: 2, Cancel: 3},
+		scenario{Script: []int{hReturn}, Closers: []int{kPeerClose}, DrainFirst: true, NAfter: 2, Cancel: 3},
+		scenario{Script: []int{hReturn}, Closers: []int{kClose, kCloseWith}, DrainFirst: true, NAfter: 4, Cancel: 2})
 	n := f.Count(60)
 	for i := 0; i < n; i++ {
 		scs = append(scs, randomScenario(rng.Fork(), i))
@@ -440,7 +474,7 @@ func main() {
 		term := lib.App("Check.C44.mk",
 			lib.ListOf(sc.Script, func(h int) string { return hCoq[h] }),
 			lib.ListOf(sc.Closers, func(k int) string { return kCoq[k] }),
-			lib.Bool(sc.DrainFirst), lib.Nat(sc.NAfter),
+			lib.Bool(sc.DrainFirst), lib.Nat(sc.NAfter), cCoq[sc.Cancel],
 			lib.Bool(alive),
 			lib.ListOf(r.Handled, func(x int) string { return lib.Nat(x) }),
 			lib.Nat(r.Disc), lib.Nat(r.Winners), lib.List(r.After), lib.Bool(r.Closed), lib.Bool(r.LoopReturned))
@@ -453,7 +487,7 @@ func main() {
 		for _, h := range sc.Script {
 			kinds["handler="+hName[h]] = true
 		}
-		tags := []string{fmt.Sprintf("closers=%d", len(sc.Closers)), "drain_first=" + lib.Bool(sc.DrainFirst), "alive=" + lib.Bool(alive)}
+		tags := []string{"cancel=" + cCoq[sc.Cancel], fmt.Sprintf("closers=%d", len(sc.Closers)), "drain_first=" + lib.Bool(sc.DrainFirst), "alive=" + lib.Bool(alive)}
 		for k := range kinds {
 			tags = append(tags, k)
 		}
